@@ -1670,18 +1670,99 @@ Proof.
   - intros r0 rs' p ls E1 E2. destruct (LOC _ _ E1) as (rs0 & Ers0 & Lo & L'). rewrite Lo in E2. eapply (tO3 _ _ _ T); eauto.
 Qed.
 
-(* ---------- untrack_object of an attached, indexed object: it ends detached and un-indexed ---------- *)
-Lemma untrack_object_TreeG : forall w r x o w', Idx w -> Tree w -> get_obj w x = Some o -> o_region o = r ->
+(* ---------- dropping empty orphan lists is invisible to TreeG ---------- *)
+Lemma TreeG_orphans_drop : forall w w' O K,
+  (forall g, get_obj w' g = get_obj w g) ->
+  (forall r0, match get_rs w' r0, get_rs w r0 with
+              | Some rs', Some rs0 => r_local rs' = r_local rs0 /\
+                  forall p, aget p (r_orphans rs') = aget p (r_orphans rs0) \/
+                            (aget p (r_orphans rs') = None /\ aget p (r_orphans rs0) = Some [])
+              | None, None => True
+              | _, _ => False
+              end) ->
+  TreeG w O K -> TreeG w' O K.
+Proof.
+  intros w w' O K GO R T.
+  assert (RF : forall r0 rs', get_rs w' r0 = Some rs' -> exists rs0, get_rs w r0 = Some rs0 /\ r_local rs' = r_local rs0 /\
+             forall p, aget p (r_orphans rs') = aget p (r_orphans rs0) \/ (aget p (r_orphans rs') = None /\ aget p (r_orphans rs0) = Some [])).
+  { intros r0 rs' E. specialize (R r0). rewrite E in R. destruct (get_rs w r0) as [rs0|]; [|contradiction]. exists rs0. tauto. }
+  assert (RB : forall r0 rs0, get_rs w r0 = Some rs0 -> exists rs', get_rs w' r0 = Some rs' /\ r_local rs' = r_local rs0 /\
+             forall p, aget p (r_orphans rs') = aget p (r_orphans rs0) \/ (aget p (r_orphans rs') = None /\ aget p (r_orphans rs0) = Some [])).
+  { intros r0 rs0 E. specialize (R r0). rewrite E in R. destruct (get_rs w' r0) as [rs'|]; [|contradiction]. exists rs'. tauto. }
+  constructor.
+  - intros pf po c cf E I. rewrite GO in E. destruct (tC1 _ _ _ T _ _ _ _ E I) as (co & rs & A1 & A2 & A3 & A4 & A5 & A6 & A7).
+    destruct (RB _ _ A5) as (rs' & E' & L' & _). exists co, rs'. rewrite GO, L'. auto 10.
+  - intros r0 rs' c cf co p pf po E1 E2 E3 B E4 E5 Kn. rewrite GO in E3, E5. destruct (RF _ _ E1) as (rs0 & E0 & L0 & _).
+    rewrite L0 in E2, E4. eapply (tC2 _ _ _ T); eauto.
+  - intros pf po E. rewrite GO in E. eapply (tC3 _ _ _ T); eauto.
+  - intros r0 rs' p ls c E1 E2 I. destruct (RF _ _ E1) as (rs0 & E0 & L0 & Or). destruct (Or p) as [Oe|[On _]]; [|congruence].
+    rewrite Oe in E2. destruct (tO1 _ _ _ T _ _ _ _ _ E0 E2 I) as (A1 & A2 & cf & co & A3 & A4 & A5).
+    split; [exact A1|]. split; [rewrite L0; exact A2|]. exists cf, co. rewrite L0, GO. auto.
+  - intros r0 rs' c cf co p E1 E2 E3 B Hn. rewrite GO in E3. destruct (RF _ _ E1) as (rs0 & E0 & L0 & Or). rewrite L0 in E2, Hn.
+    destruct (tO2 _ _ _ T _ _ _ _ _ _ E0 E2 E3 B Hn) as (ls & El & Il). destruct (Or p) as [Oe|[_ On]].
+    + rewrite Oe. eauto.
+    + rewrite El in On. inversion On; subst ls. destruct Il.
+  - intros r0 rs' p ls E1 E2. destruct (RF _ _ E1) as (rs0 & E0 & L0 & Or). destruct (Or p) as [Oe|[On _]]; [|congruence].
+    rewrite Oe in E2. eapply (tO3 _ _ _ T); eauto.
+Qed.
+
+(* ---------- _unparent_object of an object that is already detached changes nothing Tree can see ---------- *)
+Lemma TreeG_unparent_detached : forall w O K r x q ox rs w', Base w -> TreeG w O K ->
+  get_obj w x = Some ox -> o_region ox = r -> get_rs w r = Some rs -> aget (o_lid ox) (r_local rs) = Some x ->
+  O x = Some None -> unparent_object w r x q = Some w' -> TreeG w' O K.
+Proof.
+  intros w O K r x q ox rs w' [Kw W2] T Eox Hr Ers Eidx HO H.
+  destruct (unparent_spec _ _ _ _ _ _ _ Kw Eox Ers H) as [R G].
+  pose proof (Kw _ _ Eox) as Kx.
+  assert (NB : forall p, ~ bk O ox p).
+  { intros p [B _]. unfold epar in B. rewrite Kx, HO in B. discriminate. }
+  (* no children list has an entry under x's local id in region r *)
+  assert (NOC : forall g og, get_obj w g = Some og -> is_parent_key rs q g = true -> ~ In (o_lid ox) (map fst (o_children og))).
+  { intros g og Eg Pk Hi. apply in_map_iff in Hi. destruct Hi as ([c cf] & Hc & Hi). cbn in Hc. subst c.
+    destruct (tC1 _ _ _ T _ _ _ _ Eg Hi) as (co & rs0 & A1 & A2 & A3 & A4 & A5 & A6 & A7).
+    unfold is_parent_key in Pk. apply andb_prop in Pk. destruct Pk as [_ Pk]. destruct (aget q (r_local rs)) as [pf|] eqn:Eq; [|discriminate].
+    apply N.eqb_eq in Pk. subst pf. destruct (W2 _ _ _ _ Ers Eq) as (og' & Eog' & _ & Hrg). rewrite Eg in Eog'. inversion Eog'; subst og'.
+    rewrite Hrg, Ers in A5. inversion A5; subst rs0. rewrite Eidx in A6. inversion A6; subst cf. rewrite Eox in A1. inversion A1; subst co.
+    exact (NB _ A4). }
+  (* no orphan list of region r contains x's local id *)
+  assert (NOO : forall p ls, aget p (r_orphans rs) = Some ls -> ~ In (o_lid ox) ls).
+  { intros p ls El Hi. destruct (tO1 _ _ _ T _ _ _ _ _ Ers El Hi) as (_ & _ & cf & co & A3 & A4 & A5).
+    rewrite Eidx in A3. inversion A3; subst cf. rewrite Eox in A4. inversion A4; subst co. exact (NB _ A5). }
+  set (wm := mkW (w_full w') (w_regions w) (w_futs w)).
+  assert (TM : TreeG wm O K).
+  { eapply tframe_TreeG; [|exact T]. split; [|reflexivity]. intros g. change (get_obj wm g) with (get_obj w' g).
+    rewrite G. destruct (get_obj w g) as [og|] eqn:Eg; [|reflexivity]. cbn. unfold with_ch, tcore.
+    destruct (is_parent_key rs q g) eqn:Pk; [|reflexivity]. rewrite remove1k_notin; [reflexivity|]. eapply NOC; eauto. }
+  eapply TreeG_orphans_drop; [| |exact TM].
+  - intros g. reflexivity.
+  - intros r0. change (get_rs wm r0) with (get_rs w r0). rewrite R. destruct ((r0 =? r) && negb (q =? 0)) eqn:Q.
+    + apply andb_prop in Q. destruct Q as [Q _]. apply N.eqb_eq in Q. subst r0. rewrite Ers.
+      split; [apply untrack_orphan_local|]. intros p. rewrite untrack_orphan_get. destruct (p =? q) eqn:Qp; [|left; reflexivity].
+      apply N.eqb_eq in Qp. subst p. destruct (aget q (r_orphans rs)) as [ls|] eqn:El; [|left; reflexivity].
+      rewrite (remove1_notin _ _ (NOO _ _ El)). destruct ls; [right; auto|left; reflexivity].
+    + destruct (get_rs w r0); [|exact Logic.I]. split; [reflexivity|]. intros p. left. reflexivity.
+Qed.
+
+(* ---------- untrack_object of an indexed object (attached, or already detached): it ends detached and un-indexed ---------- *)
+Lemma untrack_object_TreeG_gen : forall w O r x o w', Idx w -> TreeG w O None ->
+  (forall g, O g = None \/ O g = Some None) -> get_obj w x = Some o -> o_region o = r ->
   untrack_object w r x = Some w' ->
-  TreeG w' (oset no_ovr x None) None /\
+  TreeG w' (oset O x None) None /\
   exists o', get_obj w' x = Some o' /\ pcore o' = pcore o /\ o_children o' = [].
 Proof.
-  intros w r x o w' I T Eo Hr H. pose proof I as (Kw & W2 & W3). pose proof (Idx_Base _ I) as Bw.
+  intros w O r x o w' I T FORM Eo Hr H. pose proof I as (Kw & W2 & W3). pose proof (Idx_Base _ I) as Bw.
   destruct (W3 _ _ Eo) as (rs & Ers & _ & Elx). rewrite Hr in Ers. set (l := o_lid o) in *.
   unfold untrack_object in H. rewrite Eo in H. cbn [bind] in H. set (former := map fst (o_children o)) in *.
   bind_inv H. rename w0 into w1.
   assert (ND : NoDup former) by (eapply (tC3 _ _ _ T); eauto).
-  destruct (unparent_children_TreeG former w no_ovr None r rs w1 Bw T Ers ND ltac:(intros; reflexivity) E) as [T1 F1].
+  assert (CH : forall c, In c former -> exists cf co, aget c (r_local rs) = Some cf /\ get_obj w cf = Some co /\ o_parent co = l /\ l <> 0 /\ O cf = None).
+  { intros c Ic. apply in_map_iff in Ic. destruct Ic as ([c' cf] & Hc' & Ic). cbn in Hc'. subst c'.
+    destruct (tC1 _ _ _ T _ _ _ _ Eo Ic) as (co & rs0 & A1 & A2 & A3 & A4 & A5 & A6 & A7).
+    rewrite Hr, Ers in A5. inversion A5; subst rs0. exists cf, co. destruct A4 as [A4 A4']. unfold epar in A4. rewrite (Kw _ _ A1) in A4.
+    destruct (FORM cf) as [F0|F0]; rewrite F0 in A4; [|discriminate]. inversion A4. auto 10. }
+  assert (HOc : forall c cf, In c former -> aget c (r_local rs) = Some cf -> O cf = None).
+  { intros c cf Ic Ec. destruct (CH c Ic) as (cf' & co & Ec' & _ & _ & _ & HO'). congruence. }
+  destruct (unparent_children_TreeG former w O None r rs w1 Bw T Ers ND HOc E) as [T1 F1].
   pose proof (pframe_Base _ _ F1 Bw) as B1.
   bind_inv H. rename r0 into rs1. destruct (pframe_rs _ _ _ _ F1 E0) as (rs' & Ers' & L1). rewrite Ers in Ers'. inversion Ers'; subst rs'.
   set (rs2 := orphan_children rs1 former (o_lid o)) in *. set (w2 := set_rs w1 r rs2) in *.
@@ -1689,23 +1770,18 @@ Proof.
   destruct (pframe_obj _ _ _ _ F1 Eo2) as (o0 & Eo0 & P1 & P2 & P3 & P4). rewrite Eo in Eo0. inversion Eo0; subst o0.
   destruct (o_children o2) eqn:Hch2; [|discriminate].
   set (fs := fulls rs former) in *.
-  (* children entries of x *)
-  assert (CH : forall c, In c former -> exists cf co, aget c (r_local rs) = Some cf /\ get_obj w cf = Some co /\ o_parent co = l /\ l <> 0).
-  { intros c Ic. apply in_map_iff in Ic. destruct Ic as ([c' cf] & Hc' & Ic). cbn in Hc'. subst c'.
-    destruct (tC1 _ _ _ T _ _ _ _ Eo Ic) as (co & rs0 & A1 & A2 & A3 & A4 & A5 & A6 & A7).
-    rewrite Hr, Ers in A5. inversion A5; subst rs0. exists cf, co. destruct A4 as [A4 A4']. unfold epar, no_ovr in A4. inversion A4. auto. }
   assert (PAR : forall cf a, In cf fs -> get_obj w1 cf = Some a -> o_parent a = l /\ l <> 0).
-  { intros cf a Hi Ea. apply fulls_In in Hi. destruct Hi as (c & Ic & Ec). destruct (CH c Ic) as (cf' & co & Ec' & Eco & Hp & Hl0).
+  { intros cf a Hi Ea. apply fulls_In in Hi. destruct Hi as (c & Ic & Ec). destruct (CH c Ic) as (cf' & co & Ec' & Eco & Hp & Hl0 & _).
     rewrite Ec in Ec'. inversion Ec'; subst cf'. destruct (pframe_obj _ _ _ _ F1 Ea) as (a0 & Ea0 & _ & _ & _ & Q4).
     rewrite Eco in Ea0. inversion Ea0; subst a0. split; congruence. }
   assert (Elx1 : aget l (r_local rs1) = Some x) by (rewrite L1; exact Elx).
-  assert (Topen : TreeG w1 (odet no_ovr fs) (Some (r, l))).
+  assert (Topen : TreeG w1 (odet O fs) (Some (r, l))).
   { apply TreeG_open; [exact T1|]. intros rsA c cf co EA Ec Eco Bk. rewrite E0 in EA. inversion EA; subst rsA.
     pose proof (tC2 _ _ _ T1 _ _ _ _ _ _ _ _ E0 Ec Eco Bk Elx1 Eo2 ltac:(intro Hk; discriminate)) as Ic.
     rewrite Hch2 in Ic. destruct Ic. }
-  assert (T2 : TreeG w2 (oatt (odet no_ovr fs) (fulls rs1 former) l) (Some (r, l))).
+  assert (T2 : TreeG w2 (oatt (odet O fs) (fulls rs1 former) l) (Some (r, l))).
   { apply orphan_children_TreeG; auto.
-    - intros Hne. destruct former as [|c t] eqn:Ef; [congruence|]. destruct (CH c (or_introl eq_refl)) as (_ & _ & _ & _ & _ & Hl0). exact Hl0.
+    - intros Hne. destruct former as [|c t] eqn:Ef; [congruence|]. destruct (CH c (or_introl eq_refl)) as (_ & _ & _ & _ & _ & Hl0 & _). exact Hl0.
     - intros c Ic. destruct (CH c Ic) as (cf & co & Ec & Eco & _). destruct (pframe_obj_rev _ _ _ _ F1 Eco) as (co1 & Eco1 & _).
       exists cf, co1. rewrite L1. split; [exact Ec|]. split; [exact Eco1|]. unfold odet.
       assert (M : mem cf fs = true) by (apply mem_In; apply fulls_In; eauto). rewrite M. reflexivity. }
@@ -1713,16 +1789,21 @@ Proof.
   assert (L2 : r_local rs2 = r_local rs1).
   { pose proof (ridx_orphan_children former rs1 (o_lid o)) as C. apply ridx_inj in C. apply C. }
   assert (B2 : Base w2) by (eapply pframe_Base; [eapply pframe_set_rs; [exact E0|exact L2]|exact B1]).
-  assert (T2' : TreeG w2 no_ovr (Some (r, l))).
+  assert (T2' : TreeG w2 O (Some (r, l))).
   { eapply TreeG_bk_equiv; [|exact T2]. intros g a Eg p. change (get_obj w1 g = Some a) in Eg.
-    destruct B1 as [K1 _]. pose proof (K1 _ _ Eg) as Kg. unfold bk, epar, oatt, odet, no_ovr. rewrite Kg.
-    destruct (mem g fs) eqn:M; [|reflexivity]. apply mem_In in M. destruct (PAR _ _ M Eg) as [Hp Hl0]. rewrite Hp. reflexivity. }
+    destruct B1 as [K1 _]. pose proof (K1 _ _ Eg) as Kg. unfold bk, epar, oatt, odet. rewrite Kg.
+    destruct (mem g fs) eqn:M; [|reflexivity]. apply mem_In in M. destruct (PAR _ _ M Eg) as [Hp Hl0]. rewrite Hp.
+    apply fulls_In in M. destruct M as (c & Ic & Ec). rewrite (HOc _ _ Ic Ec). reflexivity. }
   bind_inv H. rename w0 into w3.
   assert (Ers2 : get_rs w2 r = Some rs2) by (unfold w2; rewrite get_rs_set_rs, N.eqb_refl; reflexivity).
   assert (Eo22 : get_obj w2 x = Some o2) by exact Eo2.
   assert (Eidx2 : aget (o_lid o2) (r_local rs2) = Some x) by (rewrite L2, P1; exact Elx1).
-  assert (T3 : TreeG w3 (oset no_ovr x None) (Some (r, l))).
-  { eapply (TreeG_unparent w2 no_ovr _ r x (o_parent o2) o2 rs2 w3); eauto; congruence. }
+  assert (T3 : TreeG w3 (oset O x None) (Some (r, l))).
+  { destruct (FORM x) as [F0|F0].
+    - eapply (TreeG_unparent w2 O _ r x (o_parent o2) o2 rs2 w3); eauto; [congruence|].
+      unfold epar. destruct B2 as [K2' _]. rewrite (K2' _ _ Eo22), F0. reflexivity.
+    - eapply TreeG_ext; [|eapply (TreeG_unparent_detached w2 O _ r x (o_parent o2) o2 rs2 w3); eauto; congruence].
+      intros g. unfold oset. destruct (g =? x) eqn:Q; [apply N.eqb_eq in Q; subst; exact F0|reflexivity]. }
   destruct B2 as [K2 W22].
   destruct (unparent_pres _ _ _ _ _ _ _ K2 Eo22 Ers2 E2) as (PF & PB & RF & RB).
   pose proof (pframe_unparent _ _ _ _ _ K2 E2) as F3. assert (B3 : Base w3) by (eapply pframe_Base; [exact F3|split; assumption]).
@@ -1732,12 +1813,21 @@ Proof.
   bind_inv H. rename r0 into rs4. assert (Ers4 : get_rs w3 r = Some rs4) by exact E3.
   destruct (RF _ _ Ers4) as (rs2' & Ers2' & L4). rewrite Ers2 in Ers2'. inversion Ers2'; subst rs2'.
   destruct (aget (o_lid o2) (r_local rs4)) eqn:El4; [|discriminate]. inversion H; subst w'; clear H.
-  assert (T4 : TreeG w4 (oset no_ovr x None) (Some (r, l))) by (eapply TreeG_wext; [| |exact T3]; reflexivity).
+  assert (T4 : TreeG w4 (oset O x None) (Some (r, l))) by (eapply TreeG_wext; [| |exact T3]; reflexivity).
   assert (B4 : Base w4) by (eapply pframe_Base; [apply pframe_set_futs|exact B3]).
   assert (Elx4 : aget l (r_local rs4) = Some x) by (rewrite L4, L2; exact Elx1).
   rewrite P1. split.
   - eapply (TreeG_unindex w4 _ r rs4 l x o3); eauto. unfold oset. rewrite N.eqb_refl. reflexivity.
   - exists o3. rewrite get_obj_set_rs. split; [exact Eo3|]. split; [|exact Hch3]. unfold pcore. congruence.
+Qed.
+
+
+Lemma untrack_object_TreeG : forall w r x o w', Idx w -> Tree w -> get_obj w x = Some o -> o_region o = r ->
+  untrack_object w r x = Some w' ->
+  TreeG w' (oset no_ovr x None) None /\
+  exists o', get_obj w' x = Some o' /\ pcore o' = pcore o /\ o_children o' = [].
+Proof.
+  intros w r x o w' I T Eo Hr H. eapply (untrack_object_TreeG_gen w no_ovr); eauto.
 Qed.
 
 (* ---------- a detached, un-indexed, childless object may change any field but its full id ---------- *)
@@ -1972,3 +2062,69 @@ Proof.
       rewrite U4, U1, P1p, C1l. apply Hself1. exact Qr. }
     eapply tframe_TreeG; [|exact T3]. hooks_ttac H.
 Qed.
+
+(* ---------- removing a detached, un-indexed, childless object from the full-id lookup ---------- *)
+Lemma TreeG_del : forall w O K x ox, Base w -> TreeG w O K -> O x = Some None -> get_obj w x = Some ox -> o_children ox = [] ->
+  (forall r rs c, get_rs w r = Some rs -> aget c (r_local rs) <> Some x) ->
+  TreeG (del_obj w x) O K.
+Proof.
+  intros w O K x ox [Kw W2] T HO Eox Hc Hun.
+  assert (NBx : forall p, ~ bk O ox p).
+  { intros p [B _]. unfold epar in B. rewrite (Kw _ _ Eox), HO in B. discriminate. }
+  assert (GN : forall g a, get_obj (del_obj w x) g = Some a -> g <> x /\ get_obj w g = Some a).
+  { intros g a E. rewrite get_obj_del_obj in E. destruct (g =? x) eqn:Q; [discriminate|]. apply N.eqb_neq in Q. auto. }
+  assert (GO : forall g a, get_obj w g = Some a -> g <> x -> get_obj (del_obj w x) g = Some a).
+  { intros g a E Hne. rewrite get_obj_del_obj. apply N.eqb_neq in Hne. rewrite Hne. exact E. }
+  constructor.
+  - intros pf po c cf E I. destruct (GN _ _ E) as [Hne E0].
+    destruct (tC1 _ _ _ T _ _ _ _ E0 I) as (co & rs & A1 & A2 & A3 & A4 & A5).
+    assert (Hcf : cf <> x) by (intro; subst cf; rewrite Eox in A1; inversion A1; subst co; exact (NBx _ A4)).
+    exists co, rs. split; [apply GO; assumption|]. split; [exact A2|]. split; [exact A3|]. split; [exact A4|exact A5].
+  - intros r rs c cf co p pf po E1 E2 E3 B E4 E5 Kn. destruct (GN _ _ E3) as [_ E3']. destruct (GN _ _ E5) as [_ E5'].
+    eapply (tC2 _ _ _ T); eauto.
+  - intros pf po E. destruct (GN _ _ E) as [_ E0]. eapply (tC3 _ _ _ T); eauto.
+  - intros r rs p ls c E1 E2 I. change (get_rs w r = Some rs) in E1.
+    destruct (tO1 _ _ _ T _ _ _ _ _ E1 E2 I) as (A1 & A2 & cf & co & A3 & A4 & A5).
+    split; [exact A1|]. split; [exact A2|]. exists cf, co. split; [exact A3|]. split; [|exact A5].
+    apply GO; [exact A4|]. intro; subst cf. exact (Hun _ _ _ E1 A3).
+  - intros r rs c cf co p E1 E2 E3 B Hn. destruct (GN _ _ E3) as [_ E3']. eapply (tO2 _ _ _ T); eauto.
+  - intros r rs p ls E1 E2. eapply (tO3 _ _ _ T); eauto.
+Qed.
+
+(* ---------- KillObject without a cascade ---------- *)
+(* the killed local id is a tracked object without children, or an unknown id without orphans *)
+Definition kill_simple (w : world) (r l : N) : Prop :=
+  match lookup_local w r l with
+  | Some o => o_children o = []
+  | None => forall rs, get_rs w r = Some rs -> aget l (r_orphans rs) = None
+  end.
+
+Lemma kill_simple_Tree : forall n w r l w', Idx w -> Tree w -> kill_simple w r l -> kill n w r l = Some w' -> Tree w'.
+Proof.
+  intros n w r l w' I T Hs H. destruct n as [|n]; simpl in H; [discriminate|].
+  bind_inv H. rename r0 into rs.
+  set (w1 := set_rs w r (with_missing rs (sdel l (r_missing rs)))) in *.
+  assert (F1 : frame w w1) by (eapply frame_set_rs; [exact E|reflexivity]).
+  assert (TF1 : tframe w w1) by (eapply tframe_set_rs; [exact E|reflexivity]).
+  pose proof (frame_Idx _ _ F1 I) as I1. pose proof (tframe_TreeG _ _ _ _ TF1 T) as T1.
+  assert (LL : lookup_local w1 r l = lookup_local w r l).
+  { unfold lookup_local, w1. rewrite get_rs_set_rs, N.eqb_refl, E. reflexivity. }
+  unfold kill_simple in Hs. rewrite LL in H. destruct (lookup_local w r l) as [o|] eqn:El.
+  - rewrite Hs in H. cbn [map rev kill_children bind] in H. bind_inv H. rename w0 into w3. inversion H; subst w'; clear H.
+    destruct (lookup_local_some _ _ _ _ I1 LL) as (Eo & Hl & Hr).
+    destruct (untrack_object_TreeG _ _ _ _ _ I1 T1 Eo Hr E0) as (TG & o' & Eo' & P & Hch).
+    destruct (untrack_IdxX _ _ _ _ _ I1 Eo Hr E0) as (IX & _).
+    assert (UNI : forall r0 rs0 c, get_rs w3 r0 = Some rs0 -> aget c (r_local rs0) <> Some (o_full o)).
+    { intros r0 rs0 c E1' E2'. destruct IX as (_ & AX & _). destruct (AX _ _ _ _ E1' E2') as [Hne _]. congruence. }
+    pose proof (TreeG_del _ _ _ _ _ (IdxX_Base _ _ IX) TG ltac:(unfold oset; rewrite N.eqb_refl; reflexivity) Eo' Hch UNI) as TD.
+    eapply TreeG_bk_equiv; [|exact TD]. intros g a Eg p. rewrite get_obj_del_obj in Eg.
+    destruct (g =? o_full o) eqn:Q; [discriminate|]. apply N.eqb_neq in Q. destruct IX as (KX & _).
+    apply bk_oset_other. rewrite (KX _ _ Eg). exact Q.
+  - specialize (Hs _ E). bind_inv H. rename r0 into rs2.
+    assert (Ers2 : get_rs w1 r = Some rs2) by exact E0.
+    unfold w1 in Ers2. rewrite get_rs_set_rs, N.eqb_refl in Ers2. inversion Ers2; subst rs2.
+    unfold collect_orphans in H. cbn [r_orphans with_missing] in H. rewrite Hs in H. cbn [rev retrack_avatars kill_children] in H.
+    inversion H; subst w'. eapply tframe_TreeG; [|exact T1].
+    eapply tframe_trans; [apply tframe_set_futs|]. eapply tframe_set_rs; [exact E0|reflexivity].
+Qed.
+
